@@ -159,7 +159,9 @@ class Runner:
                                                  "files": files,
                                                  "orders": [g[1][0][0] for g in glist]}, True)
         self.cases.append((label, units, glist, files))
-        self.chk.count(("graph", label, json.dumps(units, sort_keys=True)), nontrivial=nontrivial,
+        unit_names = {u["name"].lower() for u in units}
+        nontrivial = nontrivial and any(x["target"].lower() in unit_names for u in units for x in u["uses"])
+        self.chk.count(("graph", json.dumps(units, sort_keys=True)), nontrivial=nontrivial,
                        sample={"label": label, "units": [u["name"] for u in units],
                                "uses": [[G.render_use(x) for x in u["uses"]] for u in units],
                                "file_orders": len(orders)})
@@ -169,15 +171,18 @@ class Runner:
         terms = [G.coq_case(units, groups) for _, units, groups, _ in self.cases if groups]
         idx = [k for k, c in enumerate(self.cases) if c[2]]
         res = chk.coq_judge(IMPORTS, "case", "judge", terms, shard=max(8, len(terms) // 16 + 1))
-        stats = {"model_mismatch": 0, "spec_violation_in_region": 0, "spec_violation_outside": 0, "regions": {}}
+        stats = {"not_legal_spec_skipped": 0, "model_mismatch": 0, "spec_violation_in_region": 0, "spec_violation_outside": 0, "regions": {}}
         if res is None:
             return stats
         chk.traces += self.nruns
         # region census of all cases
         # failing inputs outside every region first (at most three replays are kept)
-        for j, code in sorted(res.items(), key=lambda jc: (not (jc[1] & 2 and jc[1] >> 2 == 0), jc[0])):
+        stats["legal_region_free_agreeing_with_spec"] = len(terms) - len(res)
+        for j, code in sorted(res.items(), key=lambda jc: (not (jc[1] & 2 and (jc[1] >> 2) & 15 == 0), jc[0])):
             label, units, groups, files = self.cases[idx[j]]
-            region = code >> 2
+            region = (code >> 2) & 15
+            if (code >> 6) & 1:
+                stats["not_legal_spec_skipped"] += 1
             for bit in REGION_KEYS:
                 if region & bit:
                     stats["regions"][REGION_KEYS[bit]] = stats["regions"].get(REGION_KEYS[bit], 0) + 1
@@ -201,6 +206,54 @@ class Runner:
                 if not (code & 2 and region == 0):
                     chk.violation("broken-correspondence", payload, False)
         return stats
+
+
+def distribution(all_units):
+    d = {"modules_per_graph": {}, "use_forms": {}, "entity_kinds": {}, "max_chain_depth": {}, "default_private_modules": 0,
+         "access_statements_on_imports": 0, "references": 0, "use_statements": 0}
+    for units in all_units:
+        mods = [u for u in units if u["unit"] == "module"]
+        d["modules_per_graph"][len(mods)] = d["modules_per_graph"].get(len(mods), 0) + 1
+        names = {u["name"].lower(): u for u in mods}
+        depth = {}
+
+        def dep(n, seen=()):
+            if n in depth:
+                return depth[n]
+            if n in seen:
+                return 0
+            ts = [x["target"].lower() for x in names[n]["uses"] if x["target"].lower() in names]
+            depth[n] = 1 + max([dep(t, seen + (n,)) for t in ts], default=0)
+            return depth[n]
+        md = max([dep(n) for n in names], default=0)
+        d["max_chain_depth"][md] = d["max_chain_depth"].get(md, 0) + 1
+        for u in units:
+            d["default_private_modules"] += u["unit"] == "module" and u["default"] == "private"
+            d["access_statements_on_imports"] += len(u["access"])
+            d["references"] += sum(1 for x in u["decls"] if x.get("ref")) + len(u["calls"])
+            for x in u["decls"]:
+                d["entity_kinds"][x["kind"]] = d["entity_kinds"].get(x["kind"], 0) + 1
+            targets = [x["target"].lower() for x in u["uses"]]
+            for x in u["uses"]:
+                d["use_statements"] += 1
+                if x["only"] is None:
+                    form = "rename" if x["renames"] else "plain"
+                elif not x["only"]:
+                    form = "only-empty"
+                else:
+                    ren = any(l != r for l, r in x["only"])
+                    pl = any(l == r for l, r in x["only"])
+                    form = "only+rename" if ren and pl else ("only-renames" if ren else "only")
+                forms = [form]
+                if x["prefix"] in ("intrinsic", "non_intrinsic", "::"):
+                    forms.append("prefix:" + x["prefix"])
+                if targets.count(x["target"].lower()) > 1:
+                    forms.append("several-uses-of-one-module")
+                if x["target"].lower() not in names:
+                    forms.append("module-not-in-project")
+                for f in forms:
+                    d["use_forms"][f] = d["use_forms"].get(f, 0) + 1
+    return d
 
 
 def file_orders(rng, units, how):
@@ -235,15 +288,15 @@ def run(chk):
     for k, (label, units) in enumerate(exh):
         R.add(label, units, file_orders(rng, units, 1 if quick else 3), html=k in html_pick)
     # 3. random DAGs (mostly legal, region-free), two file orders each
-    n_random = 260 if quick else 4000
+    n_random = 320 if quick else 4000
     for k in range(n_random):
-        knobs = {"regions": rng.random() < 0.25, "p_clash": 0.08 if rng.random() < 0.3 else 0.0}
+        knobs = {"regions": rng.random() < 0.25, "p_clash": 0.3 if rng.random() < 0.15 else 0.0}
         units = G.gen_graph(rng, knobs)
         R.add(f"random:{k}", units, file_orders(rng, units, 2 if quick else 4),
               html=any(u["unit"] == "program" and any(d.get("ref") for d in u["decls"]) for u in units)
               and rng.random() < (0.08 if quick else 0.05))
     # 4. every permutation of the file order
-    plan = [(5, 2), (4, 6), (3, 8)] if quick else [(5, 12), (4, 30), (3, 30)]
+    plan = [(5, 3), (4, 6), (3, 8)] if quick else [(5, 12), (4, 30), (3, 30)]
     for nfiles, count in plan:
         for k in range(count):
             units = G.gen_graph(rng, {"nmod": nfiles - 1, "program": True, "shape": rng.choice(["chain", "diamond", "random"]),
@@ -254,6 +307,7 @@ def run(chk):
         R.add("malformed:" + label, units, file_orders(rng, units, 2), nontrivial=False)
     t1 = time.time()
     stats = R.judge()
+    stats["distribution"] = distribution([c[1] for c in R.cases])
     chk.extra["c06"] = {"ford_runs": R.nruns, "cases": len(R.cases), "full_runs_html": R.nhtml,
                         "html_references_checked": R.nhtml_refs, "impl_s": round(t1 - t0, 1),
                         "judge_s": round(time.time() - t1, 1), **stats}
